@@ -32,12 +32,12 @@ Fixpoint rot_iter (k : nat) (x : cplx) : res cplx :=
   | S k' => dor y <- rotate_complex_once (fst x) (snd x); rot_iter k' y
   end.
 
-(* ComplexS.identifiers (empty registry): the length test, then one
-   rotate_complex_once per strand (each may raise), then sorted(cdict)[0] *)
+(* ComplexS.identifiers (empty registry): the length test, the no-strands test,
+   then one rotate_complex_once per strand (each may raise) *)
 Definition obj_construct (seq : list pstr) (sst : list chr) : res unit :=
   if negb (Nat.eqb (length seq) (length sst)) then Err eObjectInit
-  else dor _ <- rot_chain (size_of seq) (seq, sst);
-       if Nat.eqb (size_of seq) 0 then Err eIndex else Ok tt.
+  else if Nat.eqb (size_of seq) 0 then Err eObjectInit
+  else dor _ <- rot_chain (size_of seq) (seq, sst); Ok tt.
 
 (* ComplexS.rotate(turns): the current representation, then turns-1
    applications of rotate_complex_once; turns = None means self.size.
